@@ -78,6 +78,20 @@ def run(case):
         # the mapping belongs to the caller (it is typically applied to one file after the other)
         assert list(mapping.items()) == given, "rename_labels edited the caller's mapping: %r -> %r" % (given, list(mapping.items()))
         out = {"renamed": _oann(tb, r), "receiver": triples(tb, a), "renamed_labels": [nm(l) for l in r.labels()]}
+        # any mapping type: labels that are not keys are left alone whatever the container does for missing keys
+        import collections
+        import types
+
+        class _Loud(dict):
+            def __missing__(self, key):
+                return "zz_missing"
+        for what, mp in (("defaultdict", collections.defaultdict(lambda: "zz_default", mapping)), ("dict subclass with __missing__", _Loud(mapping)),
+                         ("OrderedDict", collections.OrderedDict(mapping)), ("mappingproxy", types.MappingProxyType(dict(mapping))),
+                         ("ChainMap", collections.ChainMap(dict(mapping), {}))):
+            r2 = mk().rename_labels(mapping=mp, copy=case["copy"])
+            assert _oann(tb, r2) == out["renamed"] and [nm(l) for l in r2.labels()] == out["renamed_labels"], \
+                "rename_labels depends on the container type of the mapping (%s)" % what
+            assert list(mp.items()) == given, "rename_labels edited the caller's mapping (%s)" % what
         out["generated"] = _oann(tb, mk().rename_labels(generator=_gen(case["gen"])))
         out["rename_tracks"] = _oann(tb, mk().rename_tracks(generator=_gen(case["gen"])))
         out["relabel_tracks"] = _oann(tb, mk().relabel_tracks(generator=_gen(case["gen"])))
